@@ -335,9 +335,25 @@ func OneShotSchedule(schedule string) bool {
 	return c == '+' || c == '!'
 }
 
+// embedded reports whether the rule that is done came with the event
+// ("evaluate!") instead of from the location.  Such a rule isn't
+// stored, so there is nothing to remove when it is done (and its
+// working id can be the id of something that is stored).
+func (w *RuleDone) embedded() bool {
+	if w.Parent == nil || w.Parent.Parent == nil {
+		return false
+	}
+	event := w.Parent.Parent.Event
+	if _, triggered := event["trigger!"]; triggered {
+		return false
+	}
+	_, embedded := event["evaluate!"]
+	return embedded
+}
+
 func (w *RuleDone) Do(ctx *Context, loc *Location) {
 	Log(DEBUG, ctx, "RuleDone.Do", "location", loc.Name, "work", *w)
-	if OneShotSchedule(w.Parent.Rule.Schedule) {
+	if OneShotSchedule(w.Parent.Rule.Schedule) && !w.embedded() {
 		Log(DEBUG, ctx, "RuleDone.Do", "location", loc.Name, "once", w.Parent.Rule.Id)
 		_, err := loc.RemRule(ctx, w.Parent.Rule.Id)
 		if err != nil {
